@@ -45,7 +45,9 @@ let hfun blobs (c : n list) : n =
   | [] -> N0
 
 let shuffle _ l = l
-let inplace = false
+(* configuration of the model: re-read from the Go source by the translator (Generated/GC10.v) *)
+let inplace = src_inplace
+let ufirst = src_unlink_first
 
 let fname p =
   match p with
@@ -108,14 +110,14 @@ let () =
     | id :: "S" :: sc :: _ ->
       let (blobs, hist, fin) = parse_script sc in
       let h = hfun blobs in
-      let s = run h shuffle inplace hist init in
-      Printf.printf "%s\n" (String.trim (Printf.sprintf "%s STEPS %s" id (String.concat " " (List.map show_step (op_steps h shuffle inplace s fin)))))
+      let s = run h shuffle inplace ufirst hist init in
+      Printf.printf "%s\n" (String.trim (Printf.sprintf "%s STEPS %s" id (String.concat " " (List.map show_step (op_steps h shuffle inplace ufirst s fin)))))
     | id :: "K" :: j :: sc :: _ ->
       let (blobs, hist, fin) = parse_script sc in
       let h = hfun blobs in
-      let s = run h shuffle inplace hist init in
-      let fsk = crash_fs h shuffle inplace s fin (nat_of_int (int_of_string j)) in
-      let s1 = run_op h shuffle inplace s fin in
+      let s = run h shuffle inplace ufirst hist init in
+      let fsk = crash_fs h shuffle inplace ufirst s fin (nat_of_int (int_of_string j)) in
+      let s1 = run_op h shuffle inplace ufirst s fin in
       let univ = List.map (fun b -> n_of_int b.bid) blobs in
       let rec_ok = recoverableb h univ s.sfs fsk s1.sfs in
       Printf.printf "%s STATE %s%s\n" id (show_fs blobs (int_of_nat s.sctr) fsk)
@@ -126,7 +128,7 @@ let () =
       let rec go s ops acc =
         match ops with
         | [] -> List.rev acc
-        | o :: r -> go (run_op h shuffle inplace s o) r (show_res (op_res h s o) :: acc) in
+        | o :: r -> go (run_op h shuffle inplace ufirst s o) r (show_res (op_res h s o) :: acc) in
       Printf.printf "%s RES %s\n" id (String.concat " " (go init (hist @ [fin]) []))
     | [] -> ()
     | _ -> Printf.printf "BADLINE %s\n" l)
